@@ -7,6 +7,7 @@ package cmdapi
 import (
 	"bytes"
 	"context"
+	"encoding/csv"
 	"errors"
 	"fmt"
 	"io"
@@ -426,6 +427,19 @@ func schemaFlagsFromConfig(cmd *cobra.Command) error {
 	return setSchemaEnvFlags(cmd, env)
 }
 
+// joinCSV encodes the values as one CSV record, the format string-slice flags
+// are read in, so that a value holding a comma or a quote stays one value.
+func joinCSV(vs []string) string {
+	if len(vs) == 0 || len(vs) == 1 && vs[0] == "" {
+		return ""
+	}
+	var b strings.Builder
+	w := csv.NewWriter(&b)
+	_ = w.Write(vs)
+	w.Flush()
+	return strings.TrimSuffix(b.String(), "\n")
+}
+
 func setSchemaEnvFlags(cmd *cobra.Command, env *Env) error {
 	if err := maySetFlag(cmd, flagDevURL, env.DevURL); err != nil {
 		return err
@@ -441,7 +455,7 @@ func setSchemaEnvFlags(cmd *cobra.Command, env *Env) error {
 	if err := maySetFlag(cmd, flagSchema, strings.Join(env.Schemas, ",")); err != nil {
 		return err
 	}
-	if err := maySetFlag(cmd, flagExclude, strings.Join(env.Exclude, ",")); err != nil {
+	if err := maySetFlag(cmd, flagExclude, joinCSV(env.Exclude)); err != nil {
 		return err
 	}
 	switch cmd.Name() {
